@@ -453,12 +453,17 @@ def u7(ctx):
     it = ctx.own_method("xandikos.store.git.GitStore", "iter_with_etag")
     cfg = ctx.cfg(it)
     du = DefUse(cfg)
-    ys = [n for n in cfg.stmt_nodes() if n.kind == "stmt" and isinstance(n.ast, ast.Expr) and isinstance(n.ast.value, ast.Yield)
-          and isinstance(n.ast.value.value, ast.Tuple) and len(n.ast.value.value.elts) == 3]
+    ys = []
+    for n in cfg.stmt_nodes():
+        if n.kind == "stmt" and isinstance(n.ast, ast.Expr) and isinstance(n.ast.value, ast.Yield) and n.ast.value.value is not None:
+            # the yielded triple, also when it was built in a local first (`item = (name, ct, etag); yield item`)
+            for o in origins(du, n, n.ast.value.value):
+                if o.kind == "expr" and not o.path and isinstance(o.leaf, ast.Tuple) and len(o.leaf.elts) == 3:
+                    ys.append((o.node or n, o.leaf))
     if not ys:
         raise AnalysisError("GitStore.iter_with_etag: yield (name, content_type, etag) not found")
-    for y in ys:
-        a = y.ast.value.value.elts[1]
+    for y, tup in ys:
+        a = tup.elts[1]
         obs.append(ctx.ob(typed_by_guess(it, y, a, du), it.qualname, where(it, y), "listing reports MIMETYPES.guess_type(name)",
                           "content type = MIMETYPES.guess_type(name)[0] or the default",
                           "GitStore.iter_with_etag reports `%s` as content type, not MIMETYPES.guess_type(name)" % src(a)))
